@@ -20,7 +20,7 @@ RULE = ('one trash-empty per case with --dry-run, or in interactive mode (-i or 
         'identically rebuilt world; non-trivial = the real command would have removed something; distinct = (mode, reply class, '
         'DAYS given, #would-be-removed)')
 ASSUMPTIONS = ["a 'would remove' line for a path that does not exist (payload of an info without payload) is not counted against the property"]
-PROBES = ['dry-run', 'negative-reply', 'positive-reply', 'eof-reply', 'tty-interactive', 'flag-interactive', 'with-days',
+PROBES = ['trash-dir-with-hundreds-of-entries', 'dry-run', 'negative-reply', 'positive-reply', 'eof-reply', 'tty-interactive', 'flag-interactive', 'with-days',
           'with-trash-dir', 'dry-run-printed-nonexistent', 'would-remove-lines']
 TECHNIQUE = 'deterministic simulation, differential: dry run vs real run on an identically rebuilt world; frame oracle on full snapshots'
 LEVEL_TEXT = 'seeded exploration of trash contents x replies x options; full-snapshot equality for refusals, set agreement for dry runs'
@@ -34,7 +34,7 @@ def gen(rng):
     L = G.make_layout(rng, trash_states=[rng.choice(['absent', 'sticky', 'nonsticky']) for _ in range(4)],
                       alt_states=[rng.choice(['absent', 'dir']) for _ in range(4)])
     steps = L['steps']
-    TG.populate(rng, L, steps, n=rng.choice([0, 1, 2, 4, 7]), allow_invalid=rng.random() < 0.3)
+    TG.populate(rng, L, steps, n=rng.choice([0, 1, 2, 4, 7]), allow_invalid=rng.random() < 0.3, bulk=0.003)
     locs = [t for t in TG.trash_locations(L) if t[2]]
     for i in range(rng.choice([0, 0, 1, 2])):
         TG.add_malformed(rng, steps, rng.choice(locs)[0], rng.choice(['nodate', 'baddate', 'nopayload', 'orphan', 'nonsuffix', 'empty', 'nopath']), str(i))
@@ -86,6 +86,8 @@ def check(sim, case, st):
     inter = ('-i' in argv or '--interactive' in argv or spec.get('tty')) and '-f' not in argv
     sim.setup(case)
     snap0 = sim.snap()
+    if len(case['world']['steps']) > 400:
+        st.probes['trash-dir-with-hundreds-of-entries'] += 1
     r = sim.run(spec)
     st.sims += 1
     st.ops += r.nops
